@@ -418,8 +418,17 @@ func checkC14(c KeyCase) (bool, *Violation) {
 				"%s: device reports octave=%d semitone=%d channel=%d mapping=%q, expected %s (exit sequence %v, completed earlier: %v)",
 				describeStep(i, ws), st.Octave, st.Semitone, int(st.Channel)+1, st.Mapping, ws.Post, c.D.Exit, fired)
 		}
-		if fired {
-			// nothing else is asserted about presses after the first completion; only feed the receiver
+		// a press of a sequence key that makes the sequence completely held (again): the statement's "key press that completes
+		// the configured exit sequence", the first time and every later time (the application may still be shutting down, and
+		// a second signal is what forces a stuck shutdown to quit)
+		completing := ws.Step.T == "key" && ws.Step.Val == 1 && exitSet[ws.Step.Code] && ws.Model.Signal
+		if fired && !completing {
+			// left open: presses of OTHER keys while the whole sequence stays held (the code raises the signal again for each).
+			// Not open: a signal while the sequence is not completely held.
+			if !ws.Model.Signal && ws.Res.Signals != 0 {
+				return true, violation("C14", "spurious-signal", fmt.Sprintf("again-len%d", len(c.D.Exit)),
+					"%s raised %d termination signal(s) although the exit sequence %v is not completely held (it was completed earlier in the history)", describeStep(i, ws), ws.Res.Signals, c.D.Exit)
+			}
 			for _, m := range ws.Res.Out {
 				rx.Feed(m)
 			}
@@ -429,6 +438,10 @@ func checkC14(c KeyCase) (bool, *Violation) {
 			order = append(order, ws.Step.Code)
 		}
 		if ws.Model.Signal {
+			if fired {
+				nontrivial = true
+				classify("completed again")
+			}
 			fired = true
 			if ws.Res.Signals != 1 {
 				return true, violation("C14", "no-signal-on-completion", "",
